@@ -836,9 +836,14 @@ func c06Scenarios(thorough bool) []c06Scenario {
 
 func c06Run(c *core.Ctx) {
 	scs := c06Scenarios(c.Thorough())
+	// quick: 50 curated scenarios, bound 3, all interleavings for <= 3 operations;
+	// thorough: the full cross product (thousands of scenarios), bound 3, all
+	// interleavings for <= 2 operations (bound 4 over the cross product does not
+	// finish within the tier budget: measured 1.3e8 executions in 45 minutes)
 	bound := 3
+	unboundedOps := 3
 	if c.Thorough() {
-		bound = 4
+		unboundedOps = 2
 	}
 	c.Info("scenarios", fmt.Sprint(len(scs)))
 	c.Info("preemption_bound", fmt.Sprint(bound))
@@ -875,7 +880,7 @@ func c06Run(c *core.Ctx) {
 		for _, t := range sc {
 			ops += len(t)
 		}
-		if ops <= 3 && !st.Truncated {
+		if ops <= unboundedOps && !st.Truncated {
 			st2 := run(-1, 150000)
 			if !st2.Truncated {
 				unboundedDone++
